@@ -473,7 +473,7 @@ theorem exTree_listed : Listed exNoFilter exTree ∧ Listed exNoFilter exTreeEdi
   have h1 : obs exNoFilter exTree = .dir (dirInfo 2 10) [([0x61], .dir (dirInfo 4 12) [([0x78], .leaf (some (fileInfo 5 1 13))), ([0x79], .leaf none)]),
       ([0x62], .leaf (some (fileInfo 3 5 11))), ([0x78], .leaf (some (fileInfo 6 2 14)))] := by rfl
   have h2 : obs exNoFilter exTreeEdited = .dir (dirInfo 2 10) [([0x61], .dir (dirInfo 4 12) [([0x78], .leaf (some (fileInfo 5 1 13))), ([0x79], .leaf none)]),
-      ([0x62], .leaf (some ⟨1, 3, 0o100644, 6, 20, 0⟩)), ([0x78], .leaf (some (fileInfo 6 2 14)))] := by rfl
+      ([0x62], .leaf (some (.plain 1 3 0o100644 6 20 0))), ([0x78], .leaf (some (fileInfo 6 2 14)))] := by rfl
   have h3 : obs exCfg exTree = .dir (dirInfo 2 10) [([0x61], .dir (dirInfo 4 12) [([0x79], .leaf none)]),
       ([0x62], .leaf (some (fileInfo 3 5 11)))] := by rfl
   have h4 : obs exCfg exTreeHiddenEdit = .dir (dirInfo 2 10) [([0x61], .dir (dirInfo 4 12) [([0x79], .leaf none)]),
